@@ -15,7 +15,7 @@ for d in seeded/S*/; do
   if ! git -C /repo apply /verif/$d/patch.diff 2>/dev/null; then echo "$id: PATCH DOES NOT APPLY" | tee -a $OUT.tmp; rc=1; continue; fi
   line="$id:"
   for c in $checks; do
-    if VERIF_EVIDENCE_DIR=/dev/shm/skvsim-seed-evidence timeout 1500 ./check $c quick 2>&1 | grep -q "^VIOLATION property=$c "; then line="$line $c=caught"; else line="$line $c=MISSED"; rc=1; fi
+    if VERIF_REPLAY_DIR=/dev/shm/skvsim-seed-replay VERIF_EVIDENCE_DIR=/dev/shm/skvsim-seed-evidence timeout 1500 ./check $c quick 2>&1 | grep -q "^VIOLATION property=$c "; then line="$line $c=caught"; else line="$line $c=MISSED"; rc=1; fi
   done
   git -C /repo checkout -- .
   echo "$line" | tee -a $OUT.tmp
